@@ -135,6 +135,7 @@ def cmd_verify(sid, suite=True):
         res["demo_without_patch_tail"] = out2[-300:]
     finally:
         subprocess.run(["git", "-C", "/repo", "worktree", "remove", "--force", wt])
+    meta = load(sid)[1]  # (a check may have been recorded meanwhile)
     meta["verified"] = res
     save(d, meta)
     print("%s applies=%s builds=%s suite_ok=%s %s demo_fails_with=%s demo_passes_without=%s" % (
@@ -163,7 +164,9 @@ def cmd_check(sid, ids=None, tier="quick"):
                 print("   " + l[:300])
     finally:
         subprocess.run(["git", "-C", "/repo", "worktree", "remove", "--force", wt])
-    save(d, meta)
+    fresh = load(sid)[1]  # (a verification may have been recorded meanwhile)
+    fresh.setdefault("checks", {}).update(out_all)
+    save(d, fresh)
 
 
 if __name__ == "__main__":
